@@ -9,6 +9,12 @@ open EzdxfVerif EzdxfVerif.Readers Proto
                                 -> `ok TYPE:HANDLE[sub,sub]seqend;...` or `err:<class>`
   grp|tags                      -> groupTags: `n1,n2,...` sizes and first values
   jw|compact(0/1)|wtags         wtags = `s,code,value` or `v,code,x y z` separated by `;`  -> json pairs + loader result + ascii
+  r12|pretags|calls             calls = `S~TYPE~tags` or `P~tags~vtags~vtags...` separated by `!`; pretags = preface file part
+                                -> tags of r12File
+  ex|dup(0/1)|r12(0/1)|tags     iterdxf exporter on a well-formed source file, all delivered modelspace entities written
+                                -> `TYPE:HANDLE;...` of every group of the exported file, or `err`
+  wf|MSP|PSP|tags               -> FileWF' of the driver's Cfg (1/0)
+  jl|jtags                      jtags = `s,code,value` or `v,code,x y z`  -> json_tag_loader result
 -/
 
 def unesc (s : String) : String := Id.run do
@@ -53,7 +59,8 @@ def intVal (s : String) : Int := ((s.trimAscii.toString).toInt?).getD 0
 
 def mkCfg (msp psp : String) : Cfg where
   truthy := fun e =>
-    if dxftype e.main = "POLYLINE" then !e.subs.isEmpty
+    if Gen.ReaderTables.iterdxfYieldsFalsy then true
+    else if dxftype e.main = "POLYLINE" then !e.subs.isEmpty
     else if dxftype e.main = "LWPOLYLINE" then (firstVal 10 e.main).isSome
     else if dxftype e.main = "MLINE" then (firstVal 11 e.main).isSome
     else true
@@ -93,6 +100,18 @@ def showJ : JTag → String
   | .single c v => s!"s,{c},{esc v}"
   | .point c xs => s!"v,{c}," ++ " ".intercalate (xs.map esc)
 
+def parseCall (s : String) : Option R12Call :=
+  match s.splitOn "~" with
+  | ["S", ty, ts] => (parseTags ts).map (fun a => R12Call.simple (unesc ty) a)
+  | "P" :: ts :: vs => do
+    let a ← parseTags ts
+    let v ← vs.mapM parseTags
+    some (R12Call.polyline a v)
+  | _ => none
+
+def showGroups (f : List Tag) : String :=
+  ";".intercalate ((groupTags f).map fun g => esc (dxftype g) ++ ":" ++ esc (handleOf g))
+
 def step (line : String) : String :=
   match line.splitOn "|" with
   | ["rd", rdr, msp, psp, ts] =>
@@ -123,6 +142,43 @@ def step (line : String) : String :=
       let j := jsonWrite (compact = "1") w
       let isPt := fun c => Gen.ReaderTables.pointCodes.contains c
       ";".intercalate (j.map showJ) ++ "|" ++ showTags (jsonLoad isPt j) ++ "|" ++ showTags (asciiLoad (asciiWrite w))
+  | ["r12", pre, cs] =>
+    match parseTags pre, (if cs.isEmpty then some [] else (cs.splitOn "!").mapM parseCall) with
+    | some p, some calls =>
+      -- the preface is passed as the tags of complete sections
+      match parseFile (p ++ [tEOF]) with
+      | some secs => showTags (r12File secs calls)
+      | none => "bad-op preface"
+    | _, _ => "bad-op r12"
+  | ["ex", dup, r12, ts] =>
+    match parseTags ts with
+    | none => "bad-op tags"
+    | some f =>
+      let cfg := mkCfg "-" "-"
+      match parseFile f with
+      | none => "err"
+      | some secs =>
+        match splitEnt secs with
+        | none => "err"
+        | some (pre, _, post) =>
+          -- the harness writes what opendxf().modelspace() delivers
+          match indexModelspace cfg Gen.ReaderTables.maxGroupCode f with
+          | .error _ => "err"
+          | .ok written =>
+            let objects := if r12 = "1" then none else post.find? (fun s => s.name = "OBJECTS")
+            showGroups (exportFile (dup = "1") pre written objects)
+  | ["wf", msp, psp, ts] =>
+    match parseTags ts with
+    | none => "bad-op tags"
+    | some f => if FileWF' (mkCfg msp psp) Gen.ReaderTables.maxGroupCode f then "1" else "0"
+  | ["jl", js] =>
+    let parseJ := fun (x : String) => match x.splitOn "," with
+      | ["s", c, v] => c.toNat?.map (fun n => JTag.single n (unesc v))
+      | ["v", c, xs] => c.toNat?.map (fun n => JTag.point n (if xs.isEmpty then [] else (xs.splitOn " ").map unesc))
+      | _ => none
+    match (if js.isEmpty then some [] else (js.splitOn ";").mapM parseJ) with
+    | none => "bad-op jtags"
+    | some j => showTags (jsonLoad (fun c => Gen.ReaderTables.pointCodes.contains c) j)
   | _ => "bad-op"
 
 def main : IO Unit := Proto.run step
